@@ -162,7 +162,9 @@ fn run_op<S: AfcState<CipherSuite = super::world::CS>>(
                     oracle_fail!("{kind} on a removed channel succeeded after the removal had returned");
                 }
                 if h.dead {
-                    oracle_fail!("{kind} on a removed channel succeeded after the same context had reported not-found");
+                    oracle_fail!(
+                        "{kind} on a channel under removal succeeded after the same context had reported not-found: the removed channel reappeared [key: {kind} reports not-found for a channel under removal and then succeeds again through the same context]"
+                    );
                 }
                 let want = if kind == "seal" { h.successes } else { 0 };
                 if *seq != want {
